@@ -143,7 +143,19 @@ pub fn qv(v: &[f64]) -> QVec {
     v.iter().map(|x| Q::from_f64(*x)).collect()
 }
 
+/// The vector handed to the library as an input point.  One vector in six (decided by a hash of its contents)
+/// is stored reversed in memory with stride -1 - the same logical vector, as `v.slice(s![..;-1]).to_owned()`
+/// produces it: contiguous, but memory order != logical order.
 pub fn arr(v: &[f64]) -> Array1<f64> {
+    let mut h: u64 = 0x51_7C_C1_B7_27_22_0A_95 ^ v.len() as u64;
+    for x in v {
+        h = (h ^ x.to_bits()).wrapping_mul(0x0000_0100_0000_01B3).rotate_left(29);
+    }
+    if v.len() >= 2 && (h >> 23) % 6 == 0 && std::env::var("VERIF_ROW_MAJOR").is_err() {
+        let mut a = Array1::from_vec(v.iter().rev().copied().collect());
+        a.invert_axis(ndarray::Axis(0));
+        return a;
+    }
     Array1::from_vec(v.to_vec())
 }
 
